@@ -25,7 +25,8 @@ def run(tier, seed):
             out = os.path.join(od, "t_%s_%d.ndjson" % (b, i))
             traces.append((out, b))
             jobs.append((lambda exe=exe, out=out, i=i: vlib.sh([exe, "--out", out, "--seed", str(seed * 100003 + i), "--ops", str((2500, 5000)[q]), "--maxlive", "150"], timeout=600)))
-    vlib.parallel(jobs, nproc=14)
+    dres = vlib.parallel(jobs, nproc=14)
+    vlib.check_complete(V, "C17", dres, traces, what=lambda t: "drv_sec@" + t[1])
     groups = [traces[i:i + 2] for i in range(0, len(traces), 2)]
     tvjobs = []
     for gi, g in enumerate(groups):
